@@ -289,7 +289,10 @@ func (pc *posChecker) cmd(c *ast.Cmd) (int, int, bool) {
 	}
 	for i, r := range c.Redirs {
 		rp, re, rok := pc.redir(r)
-		chk(fmt.Sprintf("Cmd.Redirs[%d]", i), rp, re, rok)
+		// a redirection, here-document included, lies inside its command whatever its rank
+		if ok && rok {
+			pc.inside(fmt.Sprintf("Cmd.Redirs[%d]", i), rp, re, po, eo)
+		}
 	}
 	switch x := c.Expr.(type) {
 	case *ast.SimpleCmd:
@@ -382,15 +385,11 @@ func (pc *posChecker) cmd(c *ast.Cmd) (int, int, bool) {
 			if !it.Break.IsZero() {
 				pc.spell("CaseItem.Break", it.Break, ";;")
 			}
-			if !it.Break.IsZero() || len(it.List) > 0 {
-				ip, ie, iok := pc.span("CaseItem", it, true)
-				if iok && xok && !hd {
-					pc.inside("CaseItem", ip, ie, xp, xe)
-				}
-				pc.cmds("CaseItem.List", it.List, ip, ie, iok)
-			} else {
-				pc.cmds("CaseItem.List", it.List, 0, 0, false)
+			ip, ie, iok := pc.span("CaseItem", it, true)
+			if iok && xok && !hd {
+				pc.inside("CaseItem", ip, ie, xp, xe)
 			}
+			pc.cmds("CaseItem.List", it.List, ip, ie, iok)
 		}
 	case *ast.IfClause:
 		xp, xe, xok := pc.span("IfClause", x, true)
